@@ -54,3 +54,9 @@ def _k_2d_low_rate(case, v):
     two_d = bs[0] == 1 or case.get("two_d") is True
     return two_d and v.kind in ("valid-2d-setting-refused", "valid-setting-refused") \
         and "2D compression requires at least 1 bit per voxel" in v.detail
+
+
+@predicate("hash_is_last_write")
+def _k_hash_last(case, v):
+    """Partial image that lacks the final hash patch: get_source_data_hash reads zeros."""
+    return v.kind == "partial-file-differs:hash" and case.get("obs", {}).get("hash_present") is False
